@@ -56,7 +56,7 @@ CLAIMS = {
             "snapshots without interior mutability; 30 forwarding/erased Ctxt methods forward once. Not decided: "
             "that user code exits in stack order; cross-task schedules beyond the per-poll bracket. Round 4: ThreadLocalCtxt::default() is new() (a fresh id). Round 6: every wrapping/bridging impl of Ctxt defines open_push (the trait default does not reproduce the thread-local overlay); a replace-and-hand-back spelling of the swap is accepted. Round 7: Frame and EnterGuard have no Clone/Copy impl; the id counter is as wide as the ids; the thread-local frame enumerates every buffered pair; open_push never unwraps an empty snapshot.",
             "custom MIR rules: guard liveness across calls incl. unwind edges, who-may-call, provenance of map keys, "
-            "constant evaluation of the id counter",
+            "constant evaluation of the id counter; compile_fail type-level witnesses (guard not Send, no double enter, no move while entered)",
             "3/C03"),
     "C04": ("Decides on built MIR: SpanCtxt::new_child returns, on every path, SpanCtxt::new(self.trace_id.or_else("
             "random), self.span_id, SpanId::random) (no early return that drops an incoming trace id); new_root; the "
@@ -69,7 +69,7 @@ CLAIMS = {
             "typed TraceId/SpanId fast path of the thread-local buffer; the RAII frame bracket incl. unwind (ids "
             "revert when a span ends). Not decided: id distinctness (rng), schedules beyond the per-poll bracket. Round 2: every wrapper and the type-erased Ctxt bridge forward open_disabled/open_push/... to the same-named method; an id's text is read by the hex decoder only (no decimal text parse in front of it), TraceId/SpanId siblings agree; the generated __private_begin_span call passes like-named values at like-named parameters. Round 4: the hex codec rules of C15 and the completion typestate of C05 also run here. Round 6: in both arms of the span macro the setup tokens precede the __private_begin_span call in the generated code; the thread-local swap/construction rules of C03 run here too. Round 7: every Rng wrapper/bridge defines and forwards every method its siblings forward (span ids reach the configured source).",
             "custom MIR provenance rules (argument origins, constant keys vs field names, guarded calls, guard "
-            "liveness incl. unwind)",
+            "liveness incl. unwind); compile_fail type-level witness (entered guard not Send)",
             "3/C04"),
     "C06": ("Decides, on built MIR of emit_batcher (async receiver analysed before coroutine lowering), the premises of the "
             "no-loss/no-dup/no-reorder argument: each sender operation and each receive iteration is one critical section "
@@ -231,7 +231,7 @@ CLAIMS = {
             "sampled, else empty; ExcludeTraceparentProps drops the three id keys under `check`. 'Exactly once per trace' "
             "across threads follows from these + C03 (paper step). Round 2: is_sampled() masks with SAMPLED; frames are entered/exited only through the RAII guard (held across the body, dropped on unwind) so the previous traceparent is restored on every exit; a guard the filter rejected never runs a completion (shared with C03/C05). Round 7: push fills the frame's slot and marks it active on every path; on the span path TraceparentFilter::matches returns the incoming traceparent's sampled flag.",
             "custom MIR rules: guard edges and closure return provenance, who-may-call with argument shape, field-write "
-            "provenance, aggregate field origins",
+            "provenance, aggregate field origins; compile_fail type-level witness (entered guard not Send)",
             "3/C18"),
     "C20": ("Decides on built MIR and the ADT/impl tables: AmbientSlot is a single OnceLock<AmbientSync>; across emit_core "
             "the only OnceLock methods used on it are new/get/set, set at exactly one site; AmbientSlot::init's success is "
